@@ -272,27 +272,6 @@ func init() {
 		in.opens = append(in.opens, &openApp{key: key, nonce: nonce, ad: ad, ct: ct, pt: pt, ok: ok})
 		return TupleV{in.bytesToSlice(pt), ok}
 	})
-	reg("strconv.Itoa", func(in *Interp, fn *ssa.Function, args []Value, site ssa.Value) Value {
-		t := args[0].(*Term)
-		v := in.concreteInt(t, "strconv.Itoa argument")
-		return in.strConst(fmtInt(v))
-	})
-	reg("strconv.FormatInt", func(in *Interp, fn *ssa.Function, args []Value, site ssa.Value) Value {
-		v := in.concreteInt(args[0].(*Term), "strconv.FormatInt argument")
-		base := in.concreteInt(args[1].(*Term), "strconv.FormatInt base")
-		return in.strConst(strconvFormat(v, int(base)))
-	})
-	reg("strconv.FormatUint", func(in *Interp, fn *ssa.Function, args []Value, site ssa.Value) Value {
-		t := args[0].(*Term)
-		var v uint64
-		if t.IsConst() {
-			v = t.c
-		} else {
-			v = in.concretize(t, "strconv.FormatUint argument")
-		}
-		base := in.concreteInt(args[1].(*Term), "strconv.FormatUint base")
-		return in.strConst(strconvFormatU(v, int(base)))
-	})
 }
 
 // aeadAxioms: an Open succeeds iff its (key, nonce, ad, ct) match a Seal made on this path, and then
